@@ -1,4 +1,4 @@
-from stages import beaconnet, beaconmodel, chainstore
+from stages import beaconnet, beaconmodel, chainstore, syncclient
 import random
 
 
@@ -12,4 +12,6 @@ def run(ctx):
         schemes = [schemes[ctx.seed % 2]]
     for sch in schemes:
         beaconnet.run(ctx, "C02", scheme=sch)
+    # chain repair (ReSync) interrupted between two store operations must not lose a stored round
+    syncclient.run_repair_abort(ctx, {"RepairLosesRound"})
     ctx.assumptions += ["BLS signatures are unique per (key, message), so two valid beacons of a round are byte-identical (checked on traces by digest)"]
